@@ -25,6 +25,21 @@ CLAIMS = {
                 text="Token-use family (OPDesign_tokenuse.cfg, rules C08.*): userinfo / introspection / revocation / end_session over histories with "
                      "issued, tampered, re-encrypted, foreign-issuer and expired token strings; trace validation of the real provider on both routers.",
                 technique="TLA+ design spec model-checked with TLC; MBT replay + trace validation by the TLA+ monitor"),
+    "C05": dict(level="model_checking", ref="DESIGN.md §3 C05",
+                text="Client-authentication / grant table as a seeded depth-2 design model (OPDesign_clientauth.cfg: every endpoint x caller x credential "
+                     "presentation x provider flags and storage capabilities, both routers) checked by TLC against rules C05.*, and the same rules "
+                     "evaluated by the monitor on recorded histories of the real provider that mix all token-endpoint grants, introspection, "
+                     "revocation and device authorization.",
+                technique="TLA+ decision-table/design spec model-checked with TLC; MBT replay + trace validation by the TLA+ monitor"),
+    "C15": dict(level="model_checking", ref="DESIGN.md §3 C15",
+                text="Token-exchange family (OPDesign_exchange.cfg, rules C15.*): subject/actor token references of every kind/form/declared type, "
+                     "requested types, storage policy (veto, default type, impersonation, scope filter); histories recorded from both routers are "
+                     "validated by the monitor. One recorded genuine defect (JWT access token accepted as id_token) is listed in known_findings.json.",
+                technique="TLA+ design spec model-checked with TLC; MBT replay + trace validation by the TLA+ monitor"),
+    "C18": dict(level="model_checking", ref="DESIGN.md §3 C18",
+                text="Logout family (OPDesign_logout.cfg, rules C18.*): id_token_hint kinds x client_id x post_logout_redirect_uri x state after real "
+                     "code flows; redirect target, rejected hints, contradiction, terminated session (storage journal) and state judged by the monitor.",
+                technique="TLA+ design spec model-checked with TLC; MBT replay + trace validation by the TLA+ monitor"),
     "C16": dict(level="model_checking", ref="DESIGN.md §3 C16",
                 text="Device family (OPDesign_device.cfg, rules C16.*): histories of device_authorization / approve / deny / expire / poll by several "
                      "clients; answers by state, client binding, subject and scopes of issued tokens; trace validation on both routers.",
